@@ -585,7 +585,17 @@ def r03_9(ctx, prog, crate):
     cli_action_table(ctx, "R03.9", prog, crate)
 
 
+def r03_10(ctx, prog, crate):
+    """(= R15.1) The options the sampling loop obeys are merged field by field: `BenchOptions::overwrite` takes each field
+    from the same field of the other side only - a max_time that leaked into min_time (or into sample_count / sample_size)
+    would change the number of recorded samples although no limit was reached."""
+    from .C15 import r15_1
+    from .common import Renamed
+    r15_1(Renamed(ctx, "R03.10"), prog, crate)
+
+
 def run(ctx, prog, crate):
+    r03_10(ctx, prog, crate)
     r03_8(ctx, prog, crate)
     r03_9(ctx, prog, crate)
     S = Sampling(prog, crate)
